@@ -411,6 +411,9 @@ def select_jobs(prop, tier, only):
     import registry
     jobs = registry.jobs_for(prop)
     sel = [j for j in jobs if tier == "thorough" or j.tier == "q"]
+    if os.environ.get("VERIF_THOROUGH_ONLY"):
+        # maintenance aid: only the obligations that the quick tier does not already run
+        sel = [j for j in jobs if j.tier != "q"]
     if only:
         sel = [j for j in sel if any(o in j.id for o in only)]
     return sel
